@@ -3,7 +3,7 @@
    specification over the same raw facts. The runtime resolves features top-down: the file starts from the
    edition defaults of its own table, every descriptor copies its parent's flags and overwrites what its own
    options.features sets (mergeEditionFeatures). Definitions only. *)
-From Coq Require Import List NArith Bool.
+From Coq Require Import List NArith ZArith Bool String.
 From PV Require Import Model.FeaturesTables Model.Features Model.FieldView.
 Import ListNotations.
 Open Scope N_scope.
@@ -123,6 +123,15 @@ Definition rt_is_closed (edition : N) (c : chain) : bool := negb (IsOpenEnum (rt
 (* required numbers = the fields whose cardinality is Required (desc_resolve.go) *)
 Definition rt_required_numbers (fields : list field) : list N :=
   map f_number (filter (fun f => rt_cardinality f =? CARD_REQUIRED) fields).
+
+(* default of an integer kind (internal/encoding/defval.Unmarshal: strconv.ParseInt / ParseUint base 10 with the
+   bit size of the kind): the parsed text; a text that does not parse makes protodesc.NewFile fail (None);
+   no default_value means zero *)
+Definition rt_default_int (k : N) (default_value : option string) : option Z :=
+  match default_value with
+  | Some text => parse_default_int k text
+  | None => Some 0%Z
+  end.
 
 (* ------------------------------------------------------------------------------------------------
    What the compiler enforces on every file it accepts, whatever the input form (linker/validate.go,
